@@ -15,6 +15,7 @@ mod lsp_sim;
 mod pipeline;
 mod position;
 mod prng;
+mod realproc;
 mod report;
 mod sem;
 
@@ -30,6 +31,14 @@ fn env_u64(k: &str, d: u64) -> u64 {
 }
 
 fn run_one(prop: &str, seed: u64, run: u64) -> Report {
+    if env("OALSIM_VALIDATE").is_some() {
+        return match prop {
+            "C15" => c15::validate("C15", hist::Sem::None, seed, run),
+            "C17" => c15::validate("C17", hist::Sem::C17, seed, run),
+            "C18" => c15::validate("C18", hist::Sem::C18, seed, run),
+            _ => Report::default(),
+        };
+    }
     match prop {
         "C10" => loader_sim::run(seed, run),
         "C06" => env_sim::run(seed, run),
